@@ -318,6 +318,35 @@ SPECS = {
 }
 
 
+# Closures: the statements of the ENCLOSING function that run before the nested def are part of what the closure computes.
+# The translator knows them as exact-rational identities (the parameter keeps its value as a Rat); anything else is refused,
+# so that e.g. a float() or limit_denominator() sneaking into the conversion breaks the translation instead of passing unseen.
+ENCLOSING_PRELUDE = {
+    'modified_first_coef/_modified_divisor': [
+        "if not isinstance(first_coef, (int, Fraction)):\n    first_coef = Fraction(*first_coef.as_integer_ratio())",
+    ],
+}
+
+
+def check_enclosing(tree, path):
+    outer_name, inner_name = path.split('/')[0], path.split('/')[-1]
+    outer = find_def(tree, outer_name)
+    allowed = ENCLOSING_PRELUDE.get(path)
+    if allowed is None:
+        return
+    stmts = []
+    for st in outer.body:
+        if isinstance(st, ast.Expr) and isinstance(st.value, ast.Constant) and isinstance(st.value.value, str):
+            continue                                   # docstring
+        if isinstance(st, ast.FunctionDef) and st.name == inner_name:
+            continue
+        if isinstance(st, ast.Return) and isinstance(st.value, ast.Name) and st.value.id == inner_name:
+            continue
+        stmts.append(ast.unparse(st))
+    if stmts != allowed:
+        raise TranslateError(f'{outer_name}: statements around the closure are not the known exact conversion: {stmts!r}')
+
+
 def translate_module(modname):
     relpath, items = SPECS[modname]
     src = open(os.path.join(REPO, relpath)).read()
@@ -331,6 +360,8 @@ def translate_module(modname):
         node = find_def(tree, path.split('#')[0])
         if not isinstance(node, ast.FunctionDef):
             raise TranslateError(f'{path} is not a function')
+        if '/' in path:
+            check_enclosing(tree, path)
         env = {}
         declared = {p for p, _, _ in params}
         for p, ln, t in params:
